@@ -175,6 +175,12 @@ def rewrite_all_references(
     all_known = set(known_components).union(looped_ids)
     _ = FlowIR.discover_reference_strings(value, owner_component_stage, all_known, out_map)
 
+    # VV: Decide how each reference is rewritten first, then substitute all of them in ONE pass over the original
+    # text. Substituting them one after the other would match again inside text that was just substituted
+    # (e.g. `number:output fake_add:output` with a loop binding number=fake_add:output) and would only rewrite
+    # the first occurrence of a reference that appears more than once.
+    rewrites = {}
+
     for match in out_map:
         rewrite = rewrite_reference(out_map[match], binding_values, import_to_stage, owner_component_stage)
 
@@ -198,12 +204,16 @@ def rewrite_all_references(
                     match, rewrite, value
                 ))
 
-        pattern = r'\b' + re.escape(match) + r'\b'
+        rewrites[match] = rewrite
+
+    if rewrites:
+        # VV: longest spelling first so that at a given position the most specific reference wins
+        pattern = '|'.join(r'\b' + re.escape(match) + r'\b' for match in sorted(rewrites, key=len, reverse=True))
 
         try:
-            value = re.sub(pattern, rewrite, value, 1)
+            value = re.sub(pattern, lambda m: rewrites[m.group()], value)
         except Exception:
-            flowirLogger.critical("Failed to res.sub(\"%s\", \"%s\", \"%s\"" % (pattern, rewrite, value))
+            flowirLogger.critical("Failed to res.sub(\"%s\", \"%s\", \"%s\"" % (pattern, rewrites, value))
             raise
 
     return value
